@@ -216,6 +216,11 @@ impl<'a, H: HashChain> InMemoryHssPublicKey<'a, H> {
 
         let public_key = InMemoryLmsPublicKey::new(data.get(index..)?)?;
 
+        // The public key must not be followed by further data (RFC 8554, Algorithm 6a, step 1)
+        if index + public_key.as_slice().len() != data.len() {
+            return None;
+        }
+
         Some(Self {
             public_key,
             level: level as usize,
